@@ -21,6 +21,13 @@ finished (or non-existent) thread is a `skip`.
 | `Vegas::adjust_limit` | load count (`< min_samples` → return); load min_rtt; load smoothed (`min = MAX ∨ min = 0 ∨ smoothed = 0` → return); load limit; store limit |
 | `Vegas::record_failure` | load limit; store `max(r/2, min)` |
 | `limit()` | load limit |
+| `record_dropped()`, `min_limit()`, `max_limit()` | no atomic operation: one turn at the explicit yield point the harness puts in front of them |
+| `AimdController::record_successes(n)` (`ctl`) | load limit; store `min(r + n·increase_by, max)` |
+| `AimdController::reset()` (`ctl`) | store `initial.clamp(min, max)` |
+| `AimdController::clone()` (`ctl`) | load limit (the clone is a new controller with that limit and the same configuration); the harness then reads the clone's limit, records one success on it and reads it again: four more turns on the clone's own cell, which nobody else can see |
+
+`kind=ctl` in a case header: the `AimdController` used directly (`AimdConfig::new().with_…`), as the retry AIMD budget uses
+it; it is the `.aimd` model with `ctl := true` and no latency threshold (`record_success()` takes no latency).
 
 Numbers: `usize`/`u64` are unbounded `Nat` (`saturating_add` never saturates below 2^64).
 The AIMD decrease `(r as f64 * factor) as usize` is `⌊r·p/q⌋` for a dyadic factor `p/q`
@@ -51,6 +58,7 @@ structure Cfg where
   alpha      : Nat := 3
   beta       : Nat := 6
   minSamples : Nat := 10           -- Vegas `min_samples` (fixed to 10 by `Vegas::new`)
+  ctl        : Bool := false       -- the bare `AimdController` (offers `record_successes`, `reset`, `Clone`)
 deriving Repr
 
 def u64Max : Nat := 18446744073709551615
@@ -102,6 +110,8 @@ def queueEst (minRtt smoothed limit : Nat) : Nat :=
 
 def aimdSuccNew (cfg : Cfg) (r : Nat) : Nat := min (r + cfg.inc) cfg.max
 def aimdFailNew (cfg : Cfg) (r : Nat) : Nat := max (r * cfg.fnum / cfg.fden) cfg.min
+/-- `record_successes(n)`: the SUM is clamped -/
+def aimdSuccsNew (cfg : Cfg) (n r : Nat) : Nat := min (r + cfg.inc * n) cfg.max
 def vegasFailNew (cfg : Cfg) (r : Nat) : Nat := max (r / 2) cfg.min
 /-- the three-way choice of `adjust_limit` for queue estimate `q` -/
 def vegasNew (cfg : Cfg) (cl q : Nat) : Nat :=
@@ -116,6 +126,12 @@ inductive FOp
   | succ (rttNs : Nat)
   | fail
   | read
+  | dropped               -- `record_dropped()`: no atomic operation, no effect
+  | minL                  -- `min_limit()`
+  | maxL                  -- `max_limit()`
+  | succs (n : Nat)       -- `AimdController::record_successes(n)`
+  | reset                 -- `AimdController::reset()`
+  | clone                 -- `AimdController::clone()`; the clone then records one success and both of its limits are read
 deriving DecidableEq, Repr, Inhabited
 
 /-- where a thread stands inside the current operation; the constructor arguments are its
@@ -134,6 +150,8 @@ inductive Phase
   | vLdLim (mr sr : Nat)       -- next: load limit
   | vStLim (mr sr cl : Nat)    -- limit loaded into `cl`; next: store limit
   | vFail (r : Nat)            -- Vegas failure: limit loaded; next: store
+  | aSuccs (n r : Nat)         -- controller `record_successes(n)`: limit loaded; next: store
+  | cloned (n r : Nat)         -- controller cloned with limit `r`; `n` more atomic operations on the clone's own cell
 deriving DecidableEq, Repr, Inhabited
 
 /-- the register of the phase that holds a value loaded from the limit cell, if any -/
@@ -142,6 +160,8 @@ def Phase.limitReg : Phase → Option Nat
   | .aFail r => some r
   | .vFail r => some r
   | .vStLim _ _ cl => some cl
+  | .aSuccs _ r => some r
+  | .cloned _ r => some r
   | _ => none
 
 structure Thread where
@@ -162,6 +182,14 @@ def beginOp (cfg : Cfg) (c : Cells) (th : Thread) (op : FOp) : Cells × Thread :
   | .succ rtt, .aimd => (c, { th with ph := if rtt > cfg.thrNs then .aFail c.limit else .aSucc c.limit })
   | .fail, .vegas => (c, { th with ph := .vFail c.limit })
   | .succ rtt, .vegas => (c, { th with ph := afterMinLoad rtt c.minRtt })
+  -- no atomic operation (the turn is the harness's explicit yield point in front of the call)
+  | .dropped, _ => (c, finish th)
+  | .minL, _ => (c, { finish th with out := th.out ++ [cfg.min] })
+  | .maxL, _ => (c, { finish th with out := th.out ++ [cfg.max] })
+  -- the bare controller; the `Algorithm` types do not offer these (the harness only yields)
+  | .succs n, _ => if cfg.ctl then (c, { th with ph := .aSuccs n c.limit }) else (c, finish th)
+  | .reset, _ => if cfg.ctl then (storeLimit c (clampInit cfg), finish th) else (c, finish th)
+  | .clone, _ => if cfg.ctl then (c, { th with ph := .cloned 4 c.limit }) else (c, finish th)
 
 /-- next atomic operation of the operation in progress -/
 def contOp (cfg : Cfg) (c : Cells) (th : Thread) : Cells × Thread :=
@@ -170,6 +198,10 @@ def contOp (cfg : Cfg) (c : Cells) (th : Thread) : Cells × Thread :=
   | .aSucc r => (storeLimit c (aimdSuccNew cfg r), finish th)
   | .aFail r => (storeLimit c (aimdFailNew cfg r), finish th)
   | .vFail r => (storeLimit c (vegasFailNew cfg r), finish th)
+  | .aSuccs n r => (storeLimit c (aimdSuccsNew cfg n r), finish th)
+  -- the clone's own `limit()`, `record_success()` (load, store), `limit()`: thread-local in effect
+  | .cloned n r =>
+      if n ≤ 1 then (c, { finish th with out := th.out ++ [r, aimdSuccNew cfg r] }) else (c, { th with ph := .cloned (n - 1) r })
   | .vMin rtt cm =>
       if c.minRtt = cm then ({ c with minRtt := rtt }, { th with ph := .vLdSm rtt })
       else (c, { th with ph := afterMinLoad rtt c.minRtt })
@@ -266,14 +298,22 @@ def parseProg : List Char → List FOp
   | 'S' :: d :: tl => .succ (latNs (d.toNat - 48)) :: parseProg tl
   | 'F' :: tl => .fail :: parseProg tl
   | 'L' :: tl => .read :: parseProg tl
+  | 'X' :: tl => .dropped :: parseProg tl
+  | 'm' :: tl => .minL :: parseProg tl
+  | 'M' :: tl => .maxL :: parseProg tl
+  | 'N' :: d :: tl => .succs (d.toNat - 48) :: parseProg tl
+  | 'R' :: tl => .reset :: parseProg tl
+  | 'K' :: tl => .clone :: parseProg tl
   | _ :: tl => parseProg tl
 
 def parseCfg (kv : Kv) : Cfg :=
   { kind := if kv.str "kind" "aimd" = "vegas" then .vegas else .aimd
     min := kv.nat "min" 1, max := kv.nat "max" 100, initial := kv.nat "initial" 10
     inc := kv.nat "inc" 1, fnum := kv.nat "fnum" 1, fden := kv.nat "fden" 2
-    thrNs := kv.nat "thr_ms" 100 * 1000000
-    alpha := kv.nat "alpha" 3, beta := kv.nat "beta" 6, minSamples := kv.nat "minsamples" 10 }
+    -- the bare controller's `record_success()` takes no latency: no threshold is ever exceeded
+    thrNs := if kv.str "kind" "aimd" = "ctl" then u64Max * 1000000 else kv.nat "thr_ms" 100 * 1000000
+    alpha := kv.nat "alpha" 3, beta := kv.nat "beta" 6, minSamples := kv.nat "minsamples" 10
+    ctl := kv.str "kind" "aimd" = "ctl" }
 
 def parseSched (s : String) : List Nat :=
   (s.splitOn ",").filterMap fun w => w.toNat?
